@@ -151,9 +151,7 @@ def rw_configs(ctx):
     Rx, Wx = ('R', 1, True), ('W', 1, True)
     quick = [
         ([[W1], [R1], [R1]], 1),
-        ([[W2], [R1], [R1]], 1),
         ([[W1, W1], [R1], [R2]], 1),
-        ([[R1], [W1], [R1]], 1),
         ([[R1, W1], [W1, R1]], 1),
         ([[W1], [W1], [R1]], 1),
         ([[R2], [R1], [W1]], 1),
@@ -165,6 +163,8 @@ def rw_configs(ctx):
     if ctx.quick:
         return quick
     return quick + [
+        ([[W2], [R1], [R1]], 1),
+        ([[R1], [W1], [R1]], 1),
         ([[W1, R1], [R1, W0], [R0, R1]], 1),
         ([[W1], [R1], [R1], [W1]], 1),
         ([[R1, R1, W1], [W1, R1, R0]], 1),
